@@ -161,7 +161,7 @@ Definition simplify_case_ok (rest : list Z) : Prop :=
   exists g weighted ws rg rws wg obs,
     rest = enc_graph g ++ weighted :: enc_Zss ws ++ 0%Z :: enc_graph rg ++ enc_Zss rws ++ 1%Z :: enc_graph g /\
     g_wf g /\
-    (if (weighted =? 0)%Z then wg = unit_weights g
+    (if (weighted =? 0)%Z then wg = unit_weights g /\ ws = []
      else Forall2 (fun tw a => wadj_decodes (fst tw) (snd tw) a) (combine g ws) wg /\ length ws = length g) /\
     map (map fst) wg = g /\
     Forall2 (fun tw a => wadj_decodes (fst tw) (snd tw) a) (combine rg rws) obs /\ length rws = length rg /\
@@ -188,6 +188,7 @@ Proof.
   repeat match goal with H : (_ =? _)%Z = true |- _ => apply Z.eqb_eq in H end.
   match goal with H : (_ =? _)%nat = true |- _ => apply Nat.eqb_eq in H; rename H into HL end.
   match goal with H : wgraph_eqb _ _ = true |- _ => apply wgraph_eqb_spec in H; rename H into HE end.
+  match goal with H : negb (_ =? 0)%Z || (length _ =? 0)%nat = true |- _ => rename H into Hws end.
   geq. subst. split; [reflexivity|]. split; [reflexivity|].
   destruct (zipwg_spec _ _ _ Eobs) as (O1 & O2 & O3).
   assert (Hfst : map (map fst) wg = a).
@@ -199,7 +200,8 @@ Proof.
     - injection Em as _ ->. apply IHHE. reflexivity. }
   exists a, a0, a1, a3, a4, wg, obs. split; [lay; subst; rewrite ?app_nil_r; reflexivity|].
   split; [exact Ewf|]. split.
-  { destruct (a0 =? 0)%Z; [injection Ewg as <-; reflexivity|]. destruct (zipwg_spec _ _ _ Ewg) as (? & ? & ?). auto. }
+  { destruct (a0 =? 0)%Z; [injection Ewg as <-; split; [reflexivity|]; cbn in Hws; apply Nat.eqb_eq in Hws; apply length_zero_iff_nil; exact Hws|].
+    destruct (zipwg_spec _ _ _ Ewg) as (? & ? & ?). auto. }
   split; [exact Hfst|]. split; [exact O1|]. split; [exact O2|]. split; [lia|]. split; [exact Hrows|].
   intro Ez. rewrite Ez in Ewg. injection Ewg as <-. unfold unit_weights in Hrows.
   apply Forall2_trans_lr with (R := fun (l : list N) (a : wadj) => a = map (fun o => (o, 1)) l) (S := simp_row_ok) (m := map (map (fun o => (o, 1))) a).
